@@ -78,6 +78,42 @@ def core_defs_current(d: str) -> List[dict]:
     return viol
 
 
+def cli_output_dirs(prog, d: str) -> List[dict]:
+    """the command line from different working directories, with every way of naming the output directory: same bytes"""
+    viol = []
+    root = os.path.join(d, "cli", "proj")
+    defs.write_prog(defprog.build(prog["p"]), root)
+    env = dict(os.environ, PYTHONPATH=__import__("os").environ.get("VF_REPO", "/repo") + "/src", PYTHONHASHSEED="0")
+    other = os.path.join(d, "cli", "elsewhere")
+    os.makedirs(other)
+    runs = [("absolute", root, os.path.join(d, "cli", "o_abs"), os.path.join(d, "cli", "o_abs")),
+            ("relative", root, "gen_rel", os.path.join(root, "gen_rel")),
+            ("relative-nested", root, "build/defs", os.path.join(root, "build", "defs")),
+            ("relative-up", root, "../o_up", os.path.join(d, "cli", "o_up")),
+            ("dot", root, ".", root),
+            ("other-cwd", other, "../proj/o_other", os.path.join(root, "o_other"))]
+    ref = None
+    for tag, cwd, o, real in runs:
+        os.makedirs(real, exist_ok=True)
+        inp = "root.yaml" if cwd == root else os.path.join("..", "proj", "root.yaml")
+        r = subprocess.run(["/venv/bin/python", "-m", "pyrtma.compile", "-i", inp, "--py", "--c", "--js", "--mat", "--combined", "--no_core_import", "-o", o, "-n", "gen"],
+                           cwd=cwd, capture_output=True, text=True, timeout=300, env=env)
+        files = {}
+        for fn in ("gen.py", "gen.h", "gen.js", "gen.m", "gen_combined.yaml"):
+            pth = os.path.join(real, fn)
+            files[fn] = open(pth, "rb").read() if os.path.exists(pth) else None
+        if r.returncode != 0 or any(v is None for v in files.values()):
+            viol.append({"signature": f"C16/NonDeterministicOutput/command-line-fails:{tag}", "replay": {"params": prog["p"], "out": (r.stdout + r.stderr)[-500:]}})
+            continue
+        if ref is None:
+            ref = files
+            continue
+        for fn, b in files.items():
+            if b != ref[fn]:
+                viol.append({"signature": f"C16/NonDeterministicOutput/{fn.split('.')[-1]}:output-directory:{tag}", "replay": {"params": prog["p"], "file": fn, "cwd_kind": tag}})
+    return viol
+
+
 SEQ = r"""
 import sys, os, json
 sys.path.insert(0, os.environ.get("VF_REPO", "/repo") + "/src"); sys.path.insert(0, "/verif")
@@ -188,6 +224,7 @@ def run(tier: str, seed: int) -> Dict[str, Any]:
     try:
         viol += core_defs_current(d)
         viol += two_closures_one_process(progs, d)
+        viol += cli_output_dirs(progs[0], d)
     finally:
         shutil.rmtree(d, ignore_errors=True)
     uniq, seen = [], set()
